@@ -13,7 +13,7 @@ WIRE = ['theories/Wire/Cbor.v', 'theories/Wire/CborFloat.v', 'theories/Wire/Cbor
         'theories/Wire/Json.v', 'theories/Wire/JsonProofs.v', 'theories/Wire/JsonRT.v', 'theories/Wire/JsonTotal.v', 'theories/Wire/JsonLeaf.v',
         'theories/C09/Spec.v', 'theories/C09/Model.v', 'theories/C09/ProofsStr.v', 'theories/C09/ProofsNum.v',
         'theories/C09/ProofsQuote.v', 'theories/C09/ProofsUint.v', 'theories/C09/ProofsParse.v',
-        'theories/Wire/Item.v', 'theories/Base/Outcome.v', 'theories/Gen/Consts.v', 'theories/Gen/Leaf.v']
+        'theories/Wire/Item.v', 'theories/Base/Outcome.v', 'theories/Base/Word.v', 'theories/Gen/Consts.v', 'theories/Gen/Leaf.v', 'theories/Gen/Leaf2.v']
 
 SPEC = {
     'prop_files': ['theories/Properties/C02.v'],
@@ -34,7 +34,7 @@ SPEC = {
         'the wire models cover Decode(&interface{}) and Decode(&Raw) from []byte for cbor, msgpack, simple, binc (outcome class + NumBytesRead compared as Coq cases); typed destinations, io.Reader transports and the other option flags are covered by the oracle only; json: the theorems C02_json_* are stated over the wire model Wire/Json.v (decode into interface{} incl. map[string]interface{} keys, skip/Raw), tied to json.go by the check Wjson on every run; in this check json inputs go through the API-level oracle only (no Coq cases)',
         'msgpack model cases run with MapValueReset=true (the wire model assumption); repeated map keys are outside the cbor/simple/binc models and not compared',
     ],
-    'trusted_extra': ['modelled, not verified: the four wire models; decInferLen / usableByteSlice / maxInitLen as transcribed by hand in C02/Alloc.v (the translator does not handle the local const block of decInferLen) and tied by the leaf stream through the hook VerifC02DecInferLen / VerifC02UsableByteSliceLen; GC, real memory, wall time and the recover at the Decode boundary are runtime'],
+    'trusted_extra': ['modelled, not verified: the four wire models; maxInitLen as transcribed by hand in C02/Alloc.v; decInferLen / usableByteSlice are written by hand in C02/Alloc.v and PROVED equal (C02_alloc_src_tie, C02/LeafTie.v) to the translation of the current decode.base.go decInferLen / helper.go usableByteSlice regenerated on every run (Gen/Leaf2.v, harness/cmd/srcgen/leaf2.go; a []byte is read as its (len, cap)), besides the leaf stream through the hook VerifC02DecInferLen / VerifC02UsableByteSliceLen; GC, real memory, wall time and the recover at the Decode boundary are runtime'],
     'harness_timeout': {'quick': 1500, 'thorough': 5400},
 }
 
@@ -45,7 +45,7 @@ def main(chk):
 
 MANIFEST = {
     'category': 'proof',
-    'technique': 'Coq: per format, decoding any byte list with fuel linear in its length never runs out of fuel (assembled by exact from the wire-layer totality lemmas), every exceptional outcome is an Err class the Decode boundary recovers, step and allocation-request counts of instrumented models are linear in the input length with the caps of decInferLen / usableByteSlice / MaxInitLen (containerLenNil from Gen/Consts.v; decInferLen / usableByteSlice transcribed by hand and tied by a leaf correspondence stream); vm_compute correspondence of outcome class and NumBytesRead on hostile inputs; API-level oracle in subprocess workers (address-space limit, stack cap, watchdog) over format x destination x options x transport with hostile lengths in every length position, truncations, byte flips, random bytes and all 65792 one- and two-byte inputs',
-    'text': 'PARTIAL. Proved on the models (every byte list, option vector): C02_*_terminates (fuel K*(len+1) suffices, never OutOfFuel) for cbor, msgpack, simple, binc on the interface{} path and the skip/Raw walker; C02_only_recoverable; C02_alloc (allocation requests of every run tree satisfying the decoder invariants <= MaxDepth*max(1024,MaxInitLen)*U + (KL+64+13U)*len, whatever lengths are claimed); C02_walker_steps_partial (a step-counting skeleton of the recursive walkers takes <= 4*len+2 steps for EVERY progressing head parser; not instantiated per format: there is no per-format C02_F_steps, the wire models expose fuel, not steps); C02_json_terminates / C02_json_terminates_anyleaf (json, FULL on the wire model Wire/Json.v: Decode(&interface{}) with the same fuel K*(len+1), a decode call from every tokenizer state / depth / position incl. map keys and the DecodeStringAsBytes key read, sequences of Decode calls on one Decoder, the skip scanner and Raw capture never run out of fuel, for every leaf implementation with a total string decoder and unconditionally for the C09 string code, i.e. the leaf the Wjson correspondence runs), C02_only_recoverable_json, C02_json_skip_terminates_partial (older, skip scanner only). The model decides termination, step and allocation-request COUNTS; real time, GC, resident memory, the panic->error recover and memory safety of unsafe are runtime and are only observed by the harness. Typed destinations and io.Reader: harness oracle only; the json theorems are over Wire/Json.v, whose correspondence with the implementation is run by the check Wjson (this check runs json through the API-level oracle only).',
+    'technique': 'Coq: per format, decoding any byte list with fuel linear in its length never runs out of fuel (assembled by exact from the wire-layer totality lemmas), every exceptional outcome is an Err class the Decode boundary recovers, step and allocation-request counts of instrumented models are linear in the input length with the caps of decInferLen / usableByteSlice / MaxInitLen (containerLenNil from Gen/Consts.v; decInferLen / usableByteSlice written by hand, proved equal on their whole int64/uint64 domain to the functions translated from the current source on every run (Gen/Leaf2.v) and also tied by a leaf correspondence stream); vm_compute correspondence of outcome class and NumBytesRead on hostile inputs; API-level oracle in subprocess workers (address-space limit, stack cap, watchdog) over format x destination x options x transport with hostile lengths in every length position, truncations, byte flips, random bytes and all 65792 one- and two-byte inputs',
+    'text': 'PARTIAL. Proved on the models (every byte list, option vector): C02_*_terminates (fuel K*(len+1) suffices, never OutOfFuel) for cbor, msgpack, simple, binc on the interface{} path and the skip/Raw walker; C02_only_recoverable; C02_alloc (allocation requests of every run tree satisfying the decoder invariants <= MaxDepth*max(1024,MaxInitLen)*U + (KL+64+13U)*len, whatever lengths are claimed); C02_alloc_src_tie (the decInferLen / usable_len the statement of C02_alloc is written with equal, for every int64/uint64 argument, the Gallina terms srcgen re-translates from the Go source of decInferLen / usableByteSlice on every run, which never divide by zero nor panic on a slice bound: a behaviour-changing edit of either function breaks this obligation); C02_walker_steps_partial (a step-counting skeleton of the recursive walkers takes <= 4*len+2 steps for EVERY progressing head parser), C02_msgpack_walker_steps (the skeleton instantiated with the head parser of the msgpack skip walker returns exactly what the msgpack wire model skip returns, for every input, entry depth and option vector, in <= 4*len+2 steps; cbor, simple, binc are not instantiated: their wire models expose fuel, not steps); C02_json_terminates / C02_json_terminates_anyleaf (json, FULL on the wire model Wire/Json.v: Decode(&interface{}) with the same fuel K*(len+1), a decode call from every tokenizer state / depth / position incl. map keys and the DecodeStringAsBytes key read, sequences of Decode calls on one Decoder, the skip scanner and Raw capture never run out of fuel, for every leaf implementation with a total string decoder and unconditionally for the C09 string code, i.e. the leaf the Wjson correspondence runs), C02_only_recoverable_json, C02_json_skip_terminates_partial (older, skip scanner only). The model decides termination, step and allocation-request COUNTS; real time, GC, resident memory, the panic->error recover and memory safety of unsafe are runtime and are only observed by the harness. Typed destinations and io.Reader: harness oracle only; the json theorems are over Wire/Json.v, whose correspondence with the implementation is run by the check Wjson (this check runs json through the API-level oracle only).',
     'note': 'Findings made by this check and repaired in /repo: F02-2 (negative MaxInitLen lifted every cap of the io transport), F02-3 (decInferLen did not cap zero-size element types: map buckets sized by the claimed length); F10-1 (cbor tag 4/5 head compared with 82 decimal) surfaced as a correspondence mismatch here and was repaired by the cbor wire check. K0 is large by design of the code (64 MB usableByteSlice cap; MaxDepth * 1024 elements pre-sized per open container): the allocation oracle flags only gross violations (an uncapped claimed length). Trusted: Coq kernel, hand-written models, translator for decInferLen, harness and its constants.',
 }
